@@ -263,12 +263,15 @@ Proof.
   - apply Inv_do_respond, H0.
   - apply Inv_complete_responder, H0.
   - apply Inv_do_recv, H0.
-  - unfold do_send. pose proof (Inv_send_staged _ (Inv_set_staged _ (staged (set_now s (now s + 1)) + 1) H0)).
+  - unfold do_send, do_transmit. pose proof (Inv_send_staged _ (Inv_set_staged _ (staged (set_now s (now s + 1)) + 1) H0)).
     destruct (send_staged _) as [[s1 sent] i]. exact H1.
   - cbn [fst]. apply Inv_set_now; [exact H0|]. cbn [now set_now]. lia.
   - exact H0.
   - exact H0.
   - apply Inv_restart, H0.
+  - unfold do_keepalive, do_transmit.
+    pose proof (Inv_send_staged _ (Inv_set_staged _ (if staged (set_now s (now s + 1)) =? 0 then 1 else staged (set_now s (now s + 1))) H0)).
+    destruct (send_staged _) as [[s1 sent] i]. exact H1.
 Qed.
 
 Theorem Inv_reachable evs : Inv (final step init evs).
@@ -719,7 +722,7 @@ Proof.
       intros Hx. destruct (Hs Hx) as (k0 & Hc & Hi & Ha). exists k0. unfold age in Ha. cbn [now set_latch cur] in *.
       repeat split; [congruence|exact Hi|rewrite Bn, An; exact Ha].
     + destruct (keep_key_fresh_receiving s1) as [s3 i2]. intros [].
-  - unfold do_send.
+  - unfold do_send, do_transmit.
     pose proof (send_staged_sent (set_staged s0 (staged s0 + 1)) x) as Hs.
     pose proof (slots_send_staged (set_staged s0 (staged s0 + 1))) as (_ & A2 & _).
     pose proof (now_send_staged (set_staged s0 (staged s0 + 1))) as An.
@@ -730,6 +733,13 @@ Proof.
   - intros [].
   - intros [].
   - intros [].
+  - unfold do_keepalive, do_transmit. set (m := if staged s0 =? 0 then 1 else staged s0).
+    pose proof (send_staged_sent (set_staged s0 m) x) as Hs.
+    pose proof (slots_send_staged (set_staged s0 m)) as (_ & A2 & _).
+    pose proof (now_send_staged (set_staged s0 m)) as An.
+    destruct (send_staged _) as [[s1 sent] i]. cbn [fst snd o_sent] in *.
+    intros Hx. destruct (Hs Hx) as (k0 & Hc & Hi & Ha). exists k0. unfold age in Ha. cbn [now set_staged cur] in *.
+    repeat split; [congruence|exact Hi|rewrite An; exact Ha].
 Qed.
 
 (* what SendHandshakeInitiation does when it is called *)
@@ -747,31 +757,48 @@ Qed.
 
 (* ---- 8/10. sending: rekey after 120 s (initiator only), handshake instead of an expired key ---- *)
 
-Lemma send_cases s :
-  let s' := fst (do_send s) in let o := snd (do_send s) in
+(* the two kinds of transmission: a data packet from the TUN, a keepalive *)
+Definition is_send (e : event) : Prop := e = Send \/ e = Keepalive.
+Definition pending (s : state) (e : event) : N :=
+  match e with
+  | Keepalive => if staged s =? 0 then 1 else staged s
+  | _ => staged s + 1
+  end.
+
+Lemma step_transmit s e :
+  is_send e -> step s e = do_transmit (set_now s (now s + 1)) (pending s e) /\ pending s e <> 0.
+Proof.
+  intros [->| ->]; unfold step, do_send, do_keepalive, pending; cbn [staged set_now].
+  - split; [reflexivity|lia].
+  - split; [reflexivity|]. destruct (N.eqb_spec (staged s) 0); lia.
+Qed.
+
+Lemma transmit_cases s m :
+  m <> 0 ->
+  let s' := fst (do_transmit s m) in let o := snd (do_transmit s m) in
   match cur s with
-  | None => o_sent o = [] /\ o_init o = negb (rate_limited s) /\ staged s' = staged s + 1
+  | None => o_sent o = [] /\ o_init o = negb (rate_limited s) /\ staged s' = m
   | Some k =>
       if reject_after_time <=? age s k
-      then o_sent o = [] /\ o_init o = negb (rate_limited s) /\ staged s' = staged s + 1
-      else o_sent o = repeat (id k) (N.to_nat (staged s + 1)) /\ staged s' = 0 /\
+      then o_sent o = [] /\ o_init o = negb (rate_limited s) /\ staged s' = m
+      else o_sent o = repeat (id k) (N.to_nat m) /\ staged s' = 0 /\
            o_init o = (initiator k && (rekey_after_time <? age s k)) && negb (rate_limited s)
   end /\
   (o_init o = true -> hs s' = Some (nidx s) /\ honoured s' (nidx s) = true).
 Proof.
-  unfold do_send, send_staged. cbn [staged set_staged cur]. destruct (N.eqb_spec (staged s + 1) 0); [lia|].
+  intros Hm. unfold do_transmit, send_staged. cbn [staged set_staged cur]. destruct (N.eqb_spec m 0); [contradiction|].
   unfold age. cbn [now set_staged].
   destruct (cur s) as [k|].
   - destruct (reject_after_time <=? now s - created k).
-    + pose proof (send_initiation_spec (set_staged s (staged s + 1))) as (A & B & _ & C).
+    + pose proof (send_initiation_spec (set_staged s m)) as (A & B & _ & C).
       destruct (send_initiation _) as [s1 i]. cbn [fst snd o_sent o_init] in *.
       repeat split; try assumption; apply C; assumption.
     + destruct (initiator k && (rekey_after_time <? now s - created k)).
-      * pose proof (send_initiation_spec (set_staged s 0)) as (A & B & _ & C).
+      * pose proof (send_initiation_spec (set_staged (set_staged s m) 0)) as (A & B & _ & C).
         destruct (send_initiation _) as [s1 i]. cbn [fst snd o_sent o_init] in *.
         repeat split; try assumption; apply C; assumption.
       * cbn [fst snd o_sent o_init staged set_staged]. repeat split; discriminate.
-  - pose proof (send_initiation_spec (set_staged s (staged s + 1))) as (A & B & _ & C).
+  - pose proof (send_initiation_spec (set_staged s m)) as (A & B & _ & C).
     destruct (send_initiation _) as [s1 i]. cbn [fst snd o_sent o_init] in *.
     repeat split; try assumption; apply C; assumption.
 Qed.
@@ -851,12 +878,14 @@ Proof.
       pose proof (slots_kkfr s2) as (_ & B2 & _).
       destruct (keep_key_fresh_receiving s2) as [s3 i2]. cbn [fst snd cur set_latch set_keys o_acc] in *.
       intros Hc _. right. assert (n = k) by congruence. subst n. split; [congruence|reflexivity].
-  - unfold do_send. pose proof (slots_send_staged (set_staged s (staged s + 1))) as (_ & A & _).
+  - unfold do_send, do_transmit. pose proof (slots_send_staged (set_staged s (staged s + 1))) as (_ & A & _).
     destruct (send_staged _) as [[s1 sent] i]. cbn [fst] in *. rewrite A. auto.
   - cbn. auto.
   - cbn. auto.
   - cbn. auto.
   - cbn. discriminate.
+  - unfold do_keepalive, do_transmit. pose proof (slots_send_staged (set_staged s (if staged s =? 0 then 1 else staged s))) as (_ & A & _).
+    destruct (send_staged _) as [[s1 sent] i]. cbn [fst] in *. rewrite A. auto.
 Qed.
 
 (* x was confirmed in the history evs: some earlier event was data received and accepted under x *)
@@ -950,34 +979,36 @@ Proof.
 Qed.
 
 (* 8 *)
-Theorem initiator_rekeys_after_120_send evs k :
+Theorem initiator_rekeys_after_120_send evs k e :
   let s := R evs in
+  is_send e ->
   cur s = Some k -> now s + 1 - created k < reject_after_time ->
-  let s' := fst (step s Send) in
-  let o := snd (step s Send) in
-  o_sent o = repeat (id k) (N.to_nat (staged s + 1)) /\
+  let s' := fst (step s e) in
+  let o := snd (step s e) in
+  o_sent o = repeat (id k) (N.to_nat (pending s e)) /\
   o_init o = (initiator k && (rekey_after_time <? now s + 1 - created k)) && negb (rate_limited (set_now s (now s + 1))) /\
   (o_init o = true -> hs s' = Some (nidx s) /\ honoured s' (nidx s) = true).
 Proof.
-  intros s Hc Hage. unfold step.
-  pose proof (send_cases (set_now s (now s + 1))) as [A B]. cbn [cur set_now] in A. rewrite Hc in A.
+  intros s He Hc Hage. destruct (step_transmit s e He) as [-> Hm].
+  pose proof (transmit_cases (set_now s (now s + 1)) (pending s e) Hm) as [A B]. cbn [cur set_now] in A. rewrite Hc in A.
   unfold age in A. cbn [now set_now] in A.
   destruct (N.leb_spec reject_after_time (now s + 1 - created k)); [lia|].
   destruct A as (A1 & A2 & A3). cbn [staged set_now nidx] in *. auto.
 Qed.
 
 (* 10 *)
-Theorem expired_current_forces_handshake evs :
+Theorem expired_current_forces_handshake evs e :
   let s := R evs in
+  is_send e ->
   (cur s = None \/ exists k, cur s = Some k /\ reject_after_time <= now s + 1 - created k) ->
-  let s' := fst (step s Send) in
-  let o := snd (step s Send) in
-  o_sent o = [] /\ staged s' = staged s + 1 /\
+  let s' := fst (step s e) in
+  let o := snd (step s e) in
+  o_sent o = [] /\ staged s' = pending s e /\
   o_init o = negb (rate_limited (set_now s (now s + 1))) /\
   (o_init o = true -> hs s' = Some (nidx s) /\ honoured s' (nidx s) = true).
 Proof.
-  intros s Hc. unfold step.
-  pose proof (send_cases (set_now s (now s + 1))) as [A B]. cbn [cur set_now] in A.
+  intros s He Hc. destruct (step_transmit s e He) as [-> Hm].
+  pose proof (transmit_cases (set_now s (now s + 1)) (pending s e) Hm) as [A B]. cbn [cur set_now] in A.
   destruct Hc as [Hc|(k & Hc & Hage)]; rewrite Hc in A.
   - destruct A as (A1 & A2 & A3). cbn [staged set_now nidx] in *. auto.
   - unfold age in A. cbn [now set_now] in A.
@@ -1005,11 +1036,11 @@ Qed.
 Theorem responder_does_not_rekey evs k :
   let s := R evs in
   cur s = Some k -> initiator k = false -> now s + 1 - created k < reject_after_time ->
-  o_init (snd (step s Send)) = false /\
+  (forall e, is_send e -> o_init (snd (step s e)) = false) /\
   (forall sid, cur (fst (step s (Recv sid))) = Some k -> o_init (snd (step s (Recv sid))) = false).
 Proof.
   intros s Hc Hi Hage. split.
-  - destruct (initiator_rekeys_after_120_send evs k Hc Hage) as (_ & A & _). fold s in A. rewrite A, Hi. reflexivity.
+  - intros e He. destruct (initiator_rekeys_after_120_send evs k e He Hc Hage) as (_ & A & _). fold s in A. rewrite A, Hi. reflexivity.
   - intros sid Hc'. unfold step in *. set (s0 := set_now s (now s + 1)) in *.
     assert (H0 : Inv s0) by (apply Inv_tick1, Inv_reachable).
     assert (Hc0 : cur s0 = Some k) by exact Hc.
@@ -1068,12 +1099,14 @@ Proof.
       pose proof (slots_kkfr s2) as (_ & _ & B3).
       destruct (keep_key_fresh_receiving s2) as [s3 i2]. cbn [fst snd next set_latch set_keys] in *.
       intros C. congruence.
-  - unfold do_send. pose proof (slots_send_staged (set_staged s (staged s + 1))) as Hs.
+  - unfold do_send, do_transmit. pose proof (slots_send_staged (set_staged s (staged s + 1))) as Hs.
     destruct (send_staged _) as [[s1 sent] i]. cbn [fst] in *. eapply next_excl_same; [exact Hs|exact P0].
   - exact P0.
   - exact P0.
   - exact P0.
   - intros _. reflexivity.
+  - unfold do_keepalive, do_transmit. pose proof (slots_send_staged (set_staged s (if staged s =? 0 then 1 else staged s))) as Hs.
+    destruct (send_staged _) as [[s1 sent] i]. cbn [fst] in *. eapply next_excl_same; [exact Hs|exact P0].
 Qed.
 
 Theorem next_excludes_previous evs : next (R evs) <> None -> prev (R evs) = None.
